@@ -7,7 +7,8 @@ from .universe import (Universe, encode_request, wsdl_request, Request,
 
 from spyne import Fault
 from spyne.error import (RequestTooLongError, ResourceNotFoundError,
-                         RequestNotAllowed, InvalidCredentialsError)
+                         RequestNotAllowed, InvalidCredentialsError,
+                         RespawnError)
 
 SECRET_PREFIX = 'S3CR3T'
 
@@ -20,10 +21,32 @@ class CustomFault(Fault):
     """A generated Fault subclass (no CODE: not registered globally)."""
 
 
+class SubTooLong(RequestTooLongError):
+    pass
+
+
+class SubNotFound(ResourceNotFoundError):
+    pass
+
+
+class SubNotAllowed(RequestNotAllowed):
+    pass
+
+
+class SubInvalidCreds(InvalidCredentialsError):
+    pass
+
+
 _MSGS = [u'plain message', u'h\xe9llo w\xf6rld', u'中文 <&> "q"',
-         u'semi;colon: and/slash', u'x']
+         u'semi;colon: and/slash', u'x', u'non-BMP \U0001F600 \U00010348 end',
+         u'tab\tand newline\nkept', u']]> not cdata', u'a' * 300,
+         u'ctl \x01 and \x0b chars']
 _DETAILS = [None, {'k': 'v'}, {'outer': {'inner': 'deep'}},
-            {'a': '1', 'b': '2'}, {'n': {'m': {'o': 'p'}}}]
+            {'a': '1', 'b': '2'}, {'n': {'m': {'o': 'p'}}},
+            # falsy leaves are data too
+            {'zero': '0', 'empty': '', 'sub': {'f': '0'}},
+            {'count': 0, 'flag': False, 'ok': True, 'n': 7},
+            {'deep': {'deeper': {'deepest': {'leaf': 'x'}}}, 'side': 'y'}]
 _CLIENT_CODES = ['Client', 'Client.Custom', 'Client.A.B.C', 'Client.Quota']
 _SERVER_CODES = ['Server', 'Server.Db', 'Server.X.Y']
 _OPEN_CODES = ['Weird', 'Custom.Code', 'client.lower']
@@ -34,7 +57,10 @@ class ExcSpec(object):
     replay file:  {'kind':..., 'code':..., 'msg':..., 'detail':..., 'secret':...}"""
 
     KINDS_FAULT = ['fault_client', 'fault_server', 'fault_open', 'fault_sub',
-                   'too_long', 'not_found', 'not_allowed', 'invalid_creds']
+                   'too_long', 'not_found', 'not_allowed', 'invalid_creds',
+                   # subclasses of the dedicated errors keep their status
+                   'sub_too_long', 'sub_not_found', 'sub_not_allowed',
+                   'sub_invalid_creds', 'respawn']
     KINDS_NONFAULT = ['key_error', 'os_error', 'zero_div', 'custom',
                       'type_error']
     KINDS = KINDS_FAULT + KINDS_NONFAULT
@@ -53,9 +79,10 @@ class ExcSpec(object):
         if kind in ('fault_client', 'fault_server', 'fault_open', 'fault_sub'):
             d['msg'] = rng.choice(_MSGS)
             d['detail'] = rng.choice(_DETAILS)
-        elif kind in ('too_long', 'not_allowed', 'invalid_creds'):
+        elif kind in ('too_long', 'not_allowed', 'invalid_creds',
+                      'sub_too_long', 'sub_not_allowed', 'sub_invalid_creds'):
             d['msg'] = rng.choice(_MSGS)
-        elif kind == 'not_found':
+        elif kind in ('not_found', 'sub_not_found', 'respawn'):
             d['msg'] = rng.choice([u'thing', u'res/1'])
         return d
 
@@ -78,6 +105,16 @@ class ExcSpec(object):
             return RequestNotAllowed(d['msg'])
         if k == 'invalid_creds':
             return InvalidCredentialsError(d['msg'])
+        if k == 'sub_too_long':
+            return SubTooLong(d['msg'])
+        if k == 'sub_not_found':
+            return SubNotFound(d['msg'])
+        if k == 'sub_not_allowed':
+            return SubNotAllowed(d['msg'])
+        if k == 'sub_invalid_creds':
+            return SubInvalidCreds(d['msg'])
+        if k == 'respawn':
+            return RespawnError(d['msg'])
         s = d['secret']
         if k == 'key_error':
             return SecretKeyError(s)
@@ -97,14 +134,14 @@ class ExcSpec(object):
         k = d['kind']
         if k in ('fault_client', 'fault_server', 'fault_open', 'fault_sub'):
             return (d['code'], d['msg'], d.get('detail'))
-        if k == 'too_long':
+        if k in ('too_long', 'sub_too_long'):
             return ('Client.RequestTooLong', d['msg'], None)
-        if k == 'not_found':
+        if k in ('not_found', 'sub_not_found', 'respawn'):
             return ('Client.ResourceNotFound',
                     "Requested resource %r not found" % (d['msg'],), None)
-        if k == 'not_allowed':
+        if k in ('not_allowed', 'sub_not_allowed'):
             return ('Client.RequestNotAllowed', d['msg'], None)
-        if k == 'invalid_creds':
+        if k in ('invalid_creds', 'sub_invalid_creds'):
             return ('Client.InvalidCredentialsError', d['msg'], None)
         return ('Server', 'Internal Error', None)
 
@@ -114,13 +151,13 @@ class ExcSpec(object):
         if out_prot in ('soap11', 'soap12'):
             return '500'
         k = d['kind']
-        if k == 'too_long':
+        if k in ('too_long', 'sub_too_long'):
             return '413'
-        if k == 'not_found':
+        if k in ('not_found', 'sub_not_found', 'respawn'):
             return '404'
-        if k == 'not_allowed':
+        if k in ('not_allowed', 'sub_not_allowed'):
             return '405'
-        if k == 'invalid_creds':
+        if k in ('invalid_creds', 'sub_invalid_creds'):
             return '401'
         code = ExcSpec.expected(d)[0]
         if code == 'Client' or code.startswith('Client.'):
